@@ -340,6 +340,10 @@ pub trait Model: 'static + Send + Sync {
     /// SW: [X, Y, Z]; TE: [X, Y, T, Z]
     fn raw(g: &Self::G) -> Vec<Self::F>;
     fn from_raw(v: &[Self::F]) -> Self::G;
+    /// the checked constructor `Projective::new` (asserts curve and subgroup membership, then normalises)
+    fn from_raw_checked(v: &[Self::F]) -> Self::G;
+    /// the checked constructor `Affine::new`
+    fn aff_new_checked(x: Self::F, y: Self::F) -> Self::A;
     /// raw affine fields (SW: None when the infinity flag is set)
     fn aff_xy(a: &Self::A) -> Option<(Self::F, Self::F)>;
     fn aff_new(x: Self::F, y: Self::F) -> Self::A;
@@ -371,6 +375,12 @@ impl<P: SWCurveConfig> Model for SWm<P> {
     }
     fn from_raw(v: &[Self::F]) -> Self::G {
         sw::Projective::new_unchecked(v[0], v[1], v[2])
+    }
+    fn from_raw_checked(v: &[Self::F]) -> Self::G {
+        sw::Projective::new(v[0], v[1], v[2])
+    }
+    fn aff_new_checked(x: Self::F, y: Self::F) -> Self::A {
+        sw::Affine::new(x, y)
     }
     fn aff_xy(a: &Self::A) -> Option<(Self::F, Self::F)> {
         if a.infinity {
@@ -421,6 +431,12 @@ impl<P: TECurveConfig> Model for TEm<P> {
     }
     fn from_raw(v: &[Self::F]) -> Self::G {
         te::Projective::new_unchecked(v[0], v[1], v[2], v[3])
+    }
+    fn from_raw_checked(v: &[Self::F]) -> Self::G {
+        te::Projective::new(v[0], v[1], v[2], v[3])
+    }
+    fn aff_new_checked(x: Self::F, y: Self::F) -> Self::A {
+        te::Affine::new(x, y)
     }
     fn aff_xy(a: &Self::A) -> Option<(Self::F, Self::F)> {
         Some((a.x, a.y))
@@ -507,6 +523,24 @@ impl<M: Model, R: Conv<M::F>> Ctx<M, R> {
                 }
             },
         }
+    }
+    /// the same representative as `proj`, but built with the checked constructors (`Projective::new`, or
+    /// `Affine::new` + `into_group` when lambda = 1); None when the constructor refuses the point (documented
+    /// for points outside the prime-order subgroup)
+    pub fn proj_checked(&self, p: &OP<R::El>, lambda: &M::F) -> Option<M::G> {
+        let l = *lambda;
+        let (x, y) = p.as_ref()?;
+        let (x, y) = (self.cur.ar.fld(x), self.cur.ar.fld(y));
+        monitor::guard(|| {
+            if l.is_one() {
+                M::aff_new_checked(x, y).into_group()
+            } else if M::TE {
+                M::from_raw_checked(&[x * l, y * l, x * y * l, l])
+            } else {
+                M::from_raw_checked(&[x * l * l, y * l * l * l, l])
+            }
+        })
+        .ok()
     }
     /// a non-canonical representative of the identity
     pub fn weird_identity(&self, u: &M::F, v: &M::F) -> M::G {
